@@ -160,7 +160,7 @@ def extra_specs(ctx):
 def tier_args(ctx):
     if ctx.tier == "thorough":
         return ["-seed", str(ctx.seed), "-n", "60", "-blocks", "48", "-txs", "6", "-adv", "4", "-shard", "2"]
-    return ["-seed", str(ctx.seed), "-n", "8", "-blocks", "36", "-txs", "5", "-adv", "1", "-shard", "1"]
+    return ["-seed", str(ctx.seed), "-n", "6", "-blocks", "36", "-txs", "5", "-adv", "1", "-shard", "1"]
 
 
 def run(ctx, props, mine, known, names, what):
